@@ -10,6 +10,7 @@ use crate::util::Ch;
 use std::collections::BTreeSet;
 
 pub const SIG_IMPLICIT_UNUSED_PI: &str = "implicit-pi-with-unused-parameter";
+pub const SIG_FOREIGN_NAMES: &str = "inferred-annotation-displays-foreign-variable-name";
 
 /// Does the (parsed) term contain an implicit pi whose parameter does not occur in its codomain?
 fn has_implicit_unused_pi(t: &Term) -> bool {
@@ -201,6 +202,80 @@ fn depth(d: &crate::dterm::D) -> usize {
     }
 }
 
+/// What `gram check` displays: the *elaborated* term (holes filled by inference) must read back as
+/// the same term.
+fn elaborated_case(ctx: &Ctx, ch: &mut Ch) -> Outcome {
+    use crate::gens::prog::{self, ProgCfg};
+    let cfg = ProgCfg { forward_aliases: true, ..ProgCfg::default() };
+    let kind = ch.pick(3);
+    let fuel = 2 + ch.pick(4);
+    let Some(p) = prog::gen_program(ch, cfg, kind, fuel) else { return Ok(()) };
+    let s = if ch.chance(1, 2) {
+        let mut erased = 0;
+        prog::erase(&p.s, ch, &mut erased).flatten()
+    } else {
+        p.s.clone()
+    };
+    let text = sast::print_plain(&s);
+    if text.len() > 3000 {
+        return Ok(());
+    }
+    ctx.announce(false, None, &text);
+    let r = crate::pipe::with_front(&text, |front| -> Result<Option<bool>, Failure> {
+        let crate::pipe::Front::Accepted { elaborated, ty, .. } = front else { return Ok(None) };
+        for (what, term) in [("elaborated term", elaborated), ("elaborated type", ty)] {
+            let printed = term.to_string();
+            let input = format!("source `{text}`: the {what} prints as `{printed}`");
+            let sig = has_implicit_unused_pi(term);
+            // The other recorded finding: the structure is printable, only the *names* are off
+            // (an inferred annotation keeps the name its variable had where the solution came from).
+            let names_only = {
+                let d = crate::dterm::D::from_gram(term);
+                crate::checks::c03::closed(&d) && {
+                    let canonical = sast::print_plain(&crate::checks::c03::d_to_s(&d, 0).flatten());
+                    catch(|| {
+                        crate::tokenizer::tokenize(None, &canonical).ok().and_then(|toks| crate::parser::parse(None, &canonical, &toks, &[]).ok().map(|t| crate::dterm::D::from_gram(&t) == d))
+                    })
+                    .ok()
+                    .flatten()
+                        == Some(true)
+                }
+            };
+            let tag = |f: Failure| if sig { f.with_sig(SIG_IMPLICIT_UNUSED_PI) } else if names_only { f.with_sig(SIG_FOREIGN_NAMES) } else { f };
+            let back = catch(|| {
+                let toks = crate::tokenizer::tokenize(None, &printed).map_err(|e| format!("does not tokenize: {}", e[0].message.lines().next().unwrap_or("")))?;
+                let parsed = crate::parser::parse(None, &printed, &toks, &[]).map_err(|e| format!("does not parse: {}", e[0].message.lines().next().unwrap_or("")))?;
+                Ok::<_, String>((crate::dterm::D::from_gram(&parsed), {
+                    let mut n = vec![];
+                    crate::bridge::collect_names(&parsed, &mut n);
+                    n
+                }))
+            })
+            .map_err(|p| Failure::new(format!("panic: {p}"), input.clone()).with_sig("panic"))?;
+            match back {
+                Err(why) => return Err(tag(Failure::new(format!("the displayed {what} {why}"), input))),
+                Ok((d, _names)) => {
+                    if d != crate::dterm::D::from_gram(term) {
+                        return Err(tag(Failure::new(format!("the displayed {what} reads back as a different term: `{}` vs `{}`", d.show(), crate::dterm::D::from_gram(term).show()), input)));
+                    }
+                }
+            }
+        }
+        Ok(Some(crate::dterm::D::from_gram(elaborated).size() >= 6))
+    })
+    .map_err(|p| Failure::new(p, text.clone()).with_sig("panic"))?;
+    match r? {
+        None => ctx.class("elaborated: program not accepted (skipped)"),
+        Some(big) => {
+            ctx.class("elaborated term and type read back as the same terms");
+            if big {
+                ctx.nontrivial(&format!("elaborated: {text}"));
+            }
+        }
+    }
+    Ok(())
+}
+
 const REGRESSIONS: [&str; 6] = [
     "(x : (y = int; y)) => x",
     "{x : (y = int; y)} => x",
@@ -215,7 +290,7 @@ pub fn def(tier: Tier) -> CheckDef {
     CheckDef {
         id: "C16",
         level: "exploration",
-        rule: "proptest-generated source programs with every term former in every operand position of every other (redundant parentheses, holes, omitted annotations, implicit binders, used and unused pi parameters), parsed by gram; oracle = to_string() of the parser's output, tokenized and parsed in the same scope, must be structurally identical (constructors, de Bruijn indices, implicit flags, literals, definition order, hole <-> hole, names except unused pi parameters); the evidence lists every (parent position <- child form) pair met with its count; non-trivial = term depth >= 3 with a non-atomic child in a position printed without parentheses; distinct by source text",
+        rule: "proptest-generated source programs with every term former in every operand position of every other (redundant parentheses, holes, omitted annotations, implicit binders, used and unused pi parameters), parsed by gram; oracle = to_string() of the parser's output, tokenized and parsed in the same scope, must be structurally identical (constructors, de Bruijn indices, implicit flags, literals, definition order, hole <-> hole, names except unused pi parameters); likewise the elaborated term and type that `gram check` displays for accepted type-directed generated programs (holes filled by inference) must read back, in the empty scope, as structurally the same terms; the evidence lists every (parent position <- child form) pair met with its count; non-trivial = term depth >= 3 with a non-atomic child in a position printed without parentheses; distinct by source text",
         assumptions: vec![
             "an implicit pi whose parameter is unused prints as `{A} -> B` (recorded finding; pinned by a unit test of the repository): such pis are made explicit by the generator except in a 1/40 share of cases, and counted",
         ],
@@ -249,6 +324,15 @@ pub fn def(tier: Tier) -> CheckDef {
                     }
                 }),
                 replay: None,
+            },
+            Part {
+                name: "elaborated",
+                rounds: tier.pick(10, 100),
+                run: Box::new(|ctx, r| ctx.prop("elaborated", r, 400, 600, elaborated_case)),
+                replay: Some(Box::new(|ctx, inp| match inp {
+                    ReplayInput::Choices(c) => elaborated_case(ctx, &mut Ch::new(c)),
+                    _ => Err(Failure::new("this part replays from choices", "")),
+                })),
             },
             Part {
                 name: "parsed",
